@@ -91,8 +91,31 @@ std::string renderSeq(const char* what, const Seq& s) {
 
 // ---------------------------------------------------------------------------------------------
 // BitArrayT<C> vs std::vector<bool>.  kinds: 0 set(i) 1 clear(i) 2 get(i) 3 set() 4 clear() 5 empty() 6 &= other (other = bits given by a,b,c as pseudo-random mask seed)
+// The template parameter is an unsigned capacity: 256 is the first one beyond what an 8-bit index can count. Checked once per sequence,
+// with the operations of the sequence mapped onto 256 indices.
+static void bitArray256(const Seq& s, Fail& F) {
+	Boxed<BitArrayT<256>> box;
+	BitArrayT<256>& arr = box.get();
+	std::vector<bool> m(256, false);
+	for (size_t k = 0; k < s.ops.size() && k < 24 && !F.failed; ++k) {
+		const Op& o = s.ops[k];
+		const int i = ((o.a * 7 + o.b) % 256 + 256) % 256;
+		switch (o.kind % 4) {
+		case 0: arr.set(i); m[i] = true; break;
+		case 1: arr.clear(i); m[i] = false; break;
+		case 2: if (o.c % 9 == 0) { arr.set(); for (int q = 0; q < 256; ++q) m[q] = true; } break;
+		default: if (o.c % 9 == 0) { arr.clear(); for (int q = 0; q < 256; ++q) m[q] = false; } break;
+		}
+	}
+	bool none = true;
+	for (int i = 0; i < 256 && !F.failed; ++i) { if (arr.get(i) != m[i]) F.set(S("BitArrayT<256>: get(%d)=%d, model says %d", i, int(arr.get(i)), int(m[i]))); if (m[i]) none = false; }
+	if (!F.failed && arr.empty() != none) F.set("BitArrayT<256>: empty() disagrees with the model");
+	if (!F.failed && !box.intact()) F.set("BitArrayT<256>: wrote outside the object");
+	if (!F.failed && sizeof(BitArrayT<256>) < 32) F.set("BitArrayT<256> is smaller than 256 bits");
+}
 template <int C>
 bool runBitArray(const Seq& s, Fail& F, bool& nontrivial) {
+	if (C == VF_CHI) { bitArray256(s, F); if (F.failed) return false; }
 	Boxed<BitArrayT<C>> box;
 	BitArrayT<C>& arr = box.get();
 	std::vector<bool> m(C, false);
@@ -141,6 +164,11 @@ bool runBitArray(const Seq& s, Fail& F, bool& nontrivial) {
 template <int C>
 bool runStatic(const Seq& s, Fail& F, bool& nontrivial) {
 	using T = uint32_t;
+	{	// constructed from a filler: every element holds it
+		const T fv = T(s.aux) * 2654435761u + 1u;
+		StaticArrayT<T, C> filled0{fv};
+		for (int i = 0; i < C; ++i) if (filled0[i] != fv) { F.set(S("StaticArrayT<uint32,%d>{filler}: element %d is %u, not the filler %u", C, i, filled0[i], fv)); return false; }
+	}
 	StaticArrayT<T, C> arr;
 	StaticArrayT<ffsm2::Short, C> sh;       // the Short specialisation of filler<> (INVALID_SHORT)
 	std::vector<T> m(C, T{});
@@ -418,8 +446,19 @@ bool runStream(const Seq& s, Fail& F, bool& nontrivial) {
 		if (s.ops[k].kind % 4 == 1) v = 1u << (uint32_t(s.ops[k].c) % uint32_t(w));
 		if (w < 32) v &= (1u << w) - 1u;
 		if ((cursor % 8) != 0 && ((cursor % 8) + w) > 16) straddle = true;
+		// stale bits put (through data()) into the rest of the byte the field ends in, while the writer is alive: a write alters only the bits of
+		// its own field; the stale bits are taken out again before the next field
+		int dirtyFrom = -1, dirtyTo = -1;
+		if ((s.ops[k].c & 3) == 1 && ((cursor + w) % 8) != 0) {
+			dirtyFrom = cursor + w; dirtyTo = ((cursor + w) / 8 + 1) * 8;
+			for (int q = dirtyFrom; q < dirtyTo; ++q) { g.b.data()[q / 8] |= uint8_t(1u << (q % 8)); bits[size_t(q)] = true; }
+		}
 		writeW<C>(ws, w, v, std::make_index_sequence<32>{});
 		for (int q = 0; q < w; ++q) bits[size_t(cursor + q)] = (v >> q) & 1u;
+		if (dirtyFrom >= 0) {
+			for (int k2 = 0; k2 < BYTES && !F.failed; ++k2) if (g.b.data()[k2] != modelBytes(k2)) F.set(S("stream<%d>: writing a %d-bit field at bit %d changed bits outside the field (byte %d = %02x, expected %02x with the stale bits above the field kept)", C, w, cursor, k2, g.b.data()[k2], modelBytes(k2)));
+			for (int q = dirtyFrom; q < dirtyTo; ++q) { g.b.data()[q / 8] &= uint8_t(~(1u << (q % 8))); bits[size_t(q)] = false; }
+		}
 		cursor += w;
 		fields.push_back({w, v});
 		verify(k + 1);
